@@ -399,7 +399,7 @@ class Channel:
             self.events.append(ev)
             return False
         ev.update(resp="ok", same=True)
-        self.w, self.sess = w, dict(d=d, start=start_rel, pid=pid, uuid=w.uuid)
+        self.w, self.sess = w, dict(d=d, start=start_rel, pid=pid, uuid=w.uuid, initutc=str(((start_rel + cc.B) * p["d"]) // p["n"]))
         self.ip.update((start_rel - 1, start_rel))
         self.events.append(ev)
         return True
@@ -412,7 +412,7 @@ class Channel:
     def write(self, runs, api=None):
         """runs: [[a_rebased_abs, len], ...]; one run -> rf_write, several -> rf_write_blocks"""
         st = self.sess["start"]
-        ev = dict(ev="write", runs=[list(r) for r in runs], uuid=self.sess["uuid"])
+        ev = dict(ev="write", runs=[list(r) for r in runs], uuid=self.sess["uuid"], initutc=self.sess["initutc"])
         arr = self._data(runs)
         try:
             if len(runs) == 1 and api != "blocks":
@@ -486,7 +486,7 @@ class Channel:
 
     def close(self):
         d = self.sess["d"]
-        ev = dict(ev="close", uuid=self.sess["uuid"])
+        ev = dict(ev="close", uuid=self.sess["uuid"], initutc=self.sess["initutc"])
         self.w.close()
         ev.update(self.getters())
         ev.update(self.dir_obs(d))
@@ -733,7 +733,7 @@ class CChannel(Channel):
             return False
         ev.update(resp="ok", same=True)
         self.w = self
-        self.sess = dict(d=d, start=start_rel, pid=pid, uuid=u)
+        self.sess = dict(d=d, start=start_rel, pid=pid, uuid=u, initutc=str(((start_rel + cc.B) * p["d"]) // p["n"]))
         self.ip.update((start_rel - 1, start_rel))
         self.events.append(ev)
         return True
@@ -759,7 +759,7 @@ class CChannel(Channel):
 
     def write(self, runs, api=None):
         st = self.sess["start"]
-        ev = dict(ev="write", runs=[list(r) for r in runs], uuid=self.sess["uuid"], capi=True)
+        ev = dict(ev="write", runs=[list(r) for r in runs], uuid=self.sess["uuid"], capi=True, initutc=self.sess["initutc"])
         if len(runs) == 1 and api != "blocks":
             rc = self._cmd("w %d %d" % (runs[0][0] - st, runs[0][1]))
         elif self.cc.mode != "gapped" and len(runs) > 1:
@@ -834,7 +834,7 @@ class CChannel(Channel):
 
     def close(self):
         d = self.sess["d"]
-        ev = dict(ev="close", uuid=self.sess["uuid"], capi=True)
+        ev = dict(ev="close", uuid=self.sess["uuid"], capi=True, initutc=self.sess["initutc"])
         g = self.getters()
         self._cmd("close")
         self._stop()
